@@ -117,7 +117,95 @@ type Journal struct {
 	Checks    string `json:"checks,omitempty"`
 }
 
-func (j *Journal) add(a interface{}) { j.Actions = append(j.Actions, a) }
+func (j *Journal) add(a interface{}) {
+	j.Actions = append(j.Actions, a)
+	atomic.AddUint64(&progress, 1)
+}
+
+// progress counts journal entries and case starts of the whole process (the deadlock watch reads it).
+var progress uint64
+
+// singleThreaded tells whether a property function drives ONE goroutine through in-memory replicas only
+// (the L0 checks): there a test goroutine that sits in a mutex of orda's client code can never be released
+// by anybody - that is a self-deadlock of the library, not a slow machine.
+func singleThreaded(test string) bool {
+	for _, p := range []string{"TestC01", "TestC02", "TestC03", "TestC04", "TestC10", "TestC09Counter", "TestC09Map", "TestC09List", "TestC09Document", "TestC15Counter", "TestC15Map", "TestC15List", "TestC15Document", "TestC19Local", "TestC19Invalid"} {
+		if strings.HasPrefix(test, p) {
+			return true
+		}
+	}
+	return false
+}
+
+// blockedInOrdaMutex looks for a goroutine of the harness' property code that waits for a sync mutex
+// inside orda's client code and returns the orda frames of its stack.
+func blockedInOrdaMutex() string {
+	buf := make([]byte, 4<<20)
+	buf = buf[:runtime.Stack(buf, true)]
+	for _, g := range strings.Split(string(buf), "\n\n") {
+		head := g
+		if i := strings.IndexByte(g, '\n'); i >= 0 {
+			head = g[:i]
+		}
+		if !(strings.Contains(head, "[sync.Mutex.Lock") || strings.Contains(head, "[sync.RWMutex.Lock") || strings.Contains(head, "[sync.RWMutex.RLock")) {
+			continue
+		}
+		if !strings.Contains(g, "verif/props.") || !strings.Contains(g, "orda-io/orda/client/pkg/") {
+			continue
+		}
+		var frames []string
+		for _, l := range strings.Split(g, "\n") {
+			if strings.Contains(l, "orda-io/orda/client/pkg/") && !strings.HasPrefix(l, "\t") {
+				frames = append(frames, strings.TrimSpace(l))
+			}
+		}
+		if len(frames) > 8 {
+			frames = frames[:8]
+		}
+		return head + " " + strings.Join(frames, " <- ")
+	}
+	return ""
+}
+
+// startDeadlockWatch: when the case in flight makes no progress for 20 s and its goroutine is waiting for a
+// mutex inside orda's client code (twice, 5 s apart, same place), the case is saved as the replay file, the
+// VIOLATION line is printed and the process ends (the goroutine cannot be recovered, so nothing is shrunk).
+func startDeadlockWatch(property, test string, col *stats.Collector, current func() *Journal) (stop func()) {
+	done := make(chan struct{})
+	go func() {
+		last, since, prev := atomic.LoadUint64(&progress), time.Now(), ""
+		tick := time.NewTicker(5 * time.Second)
+		defer tick.Stop()
+		for {
+			select {
+			case <-done:
+				return
+			case <-tick.C:
+			}
+			if now := atomic.LoadUint64(&progress); now != last {
+				last, since, prev = now, time.Now(), ""
+				continue
+			}
+			if time.Since(since) < 20*time.Second {
+				continue
+			}
+			where := blockedInOrdaMutex()
+			if where == "" || where != prev {
+				prev = where
+				continue
+			}
+			j := current()
+			if j == nil {
+				j = &Journal{Property: property, Test: test}
+			}
+			p := saveFailure(j, "deadlock: the call in flight (the one after the last journal entry) never returned; its goroutine, the only one using the datatype, waits for a lock of the datatype: "+where)
+			col.Flush()
+			fmt.Fprintf(os.Stdout, "VIOLATION property=%s replay=%s\n", property, p)
+			os.Exit(1)
+		}
+	}()
+	return func() { close(done) }
+}
 
 func replayDir(property string) string {
 	d := os.Getenv("VERIF_REPLAY_DIR")
@@ -208,8 +296,14 @@ func checkProp(t *testing.T, property string, col *stats.Collector, prop func(c 
 			fmt.Fprintf(os.Stdout, "VIOLATION property=%s replay=%s\n", property, p)
 		}
 	}()
+	var curJournal atomic.Value
+	if singleThreaded(t.Name()) {
+		defer startDeadlockWatch(property, t.Name(), col, func() *Journal { j, _ := curJournal.Load().(*Journal); return j })()
+	}
 	rapid.Check(t, func(rt *rapid.T) {
 		c := &caseCtx{rt: rt, j: &Journal{Property: property, Test: t.Name()}, col: col}
+		curJournal.Store(c.j)
+		atomic.AddUint64(&progress, 1)
 		defer func() {
 			r := recover()
 			if r != nil && !isRapidInternal(r) {
